@@ -181,6 +181,7 @@ def run_unit(name, overlay=None, probe=False, rlimit=None, seed=None, tag="", ti
     ur.proved_fns = sorted(k for k, f in ur.fnmeta.items() if f["mode"] == "prove")
     ur.plain_fns = sorted(k for k, f in ur.fnmeta.items() if f["mode"] == "plain")
     os.makedirs(UNITDIR, exist_ok=True)
+    tag = tag or os.environ.get("VERIF_TAG", "")  # development: a second session on another tree (VERIF_REPO) writes to its own files
     suffix = ("." + tag if tag else "") + (".probe" if probe else "")
     ur.path = os.path.join(UNITDIR, f"{name}{suffix}.rs")
     with open(ur.path, "w") as f:
